@@ -21,6 +21,9 @@ type signAttachedStream struct {
 }
 
 func newSignAttachedStream(version Version, w io.Writer, signer SigningSecretKey) (*signAttachedStream, error) {
+	if err := checkKnownVersion(version); err != nil {
+		return nil, err
+	}
 	if signer == nil {
 		return nil, ErrInvalidParameter{message: "no signing key provided"}
 	}
@@ -196,6 +199,9 @@ type signDetachedStream struct {
 }
 
 func newSignDetachedStream(version Version, w io.Writer, signer SigningSecretKey) (*signDetachedStream, error) {
+	if err := checkKnownVersion(version); err != nil {
+		return nil, err
+	}
 	if signer == nil {
 		return nil, ErrInvalidParameter{message: "no signing key provided"}
 	}
